@@ -101,6 +101,7 @@ def to_xmile(case):
             v = {"kind": "aux", "name": a["name"], "eqn": X.print_eq(a["input"], stl), "gf": {"ypts": a["ypts"]}}
             if a.get("xpts"):
                 v["gf"]["xpts"] = a["xpts"]
+                v["gf"]["xscale_too"] = bool(a.get("xscale_too"))
             else:
                 v["gf"]["xmin"], v["gf"]["xmax"] = a["xmin"], a["xmax"]
             variables.append(v)
@@ -239,6 +240,7 @@ def sf_strategy(max_n):
                 a = {"kind": "gf", "name": "g%d" % i, "input": draw(arith(avail, 1)), "ypts": ys}
                 if draw(st.booleans()):
                     a["xpts"] = sorted(draw(st.lists(st.sampled_from([-2.0, 0.0, 0.5, 1.0, 2.0, 3.0, 5.0, 8.0, 10.0, 20.0]), min_size=k, max_size=k, unique=True)))
+                    a["xscale_too"] = draw(st.booleans())
                 else:
                     a["xmin"] = draw(st.sampled_from([0.0, -1.0, 1.0]))
                     a["xmax"] = a["xmin"] + draw(st.sampled_from([1.0, 2.0, 4.0, 10.0]))
